@@ -88,11 +88,11 @@ type ChannelCfg struct {
 }
 
 type LayoutCfg struct {
-	SwapIndex   int  `json:"swap_index"`             // desired index of the swap output among outputs (clamped)
-	Change      bool `json:"change"`                 // add a change output
-	Extra       int  `json:"extra"`                  // number of extra unrelated outputs
+	SwapIndex    int  `json:"swap_index"`               // desired index of the swap output among outputs (clamped)
+	Change       bool `json:"change"`                   // add a change output
+	Extra        int  `json:"extra"`                    // number of extra unrelated outputs
 	DecoySameAmt bool `json:"decoy_same_amt,omitempty"` // an extra output with the same value (different script)
-	SpendChange bool `json:"spend_change,omitempty"` // wallet later spends its change output
+	SpendChange  bool `json:"spend_change,omitempty"`   // wallet later spends its change output
 }
 
 // Op is an operator/workload action.
